@@ -1,4 +1,4 @@
 (** C07/C08 — collects the proof files (kept apart from the models so the models still
     evaluate if a proof breaks). *)
 From OxVerif Require Export Base.Util C07.Filters C07.Predictor C07.Lzw C07.Chain C07.Codecs C07.Check
-  C07.ProofsBasic C07.ProofsA85 C07.ProofsPredictor C07.ProofsPng C07.ProofsChain C07.ProofsLzw.
+  C07.ProofsBasic C07.ProofsA85 C07.ProofsPredictor C07.ProofsPng C07.ProofsTiff C07.ProofsChain C07.ProofsLzw.
